@@ -50,7 +50,7 @@ func (P) Engine() string { return "E1" }
 
 func (P) Describe() harness.Description {
 	return harness.Description{
-		MustHit: []string{"rule_modified_neutrally_keeps_counters", "unchanged_rule_listed_twice", "reload_compound", "reload_whole_set", "reload_per_resource", "reload_reorders", "reload_modifies_other_with_same_stat_params", "trace_has_block_and_admit", "modified_rule_keeps_statistics"},
+		MustHit: []string{"rule_modified_neutrally_keeps_counters", "unchanged_rule_listed_twice", "reload_compound", "reload_whole_set", "reload_per_resource", "reload_reorders", "reload_modifies_other_with_same_stat_params", "trace_has_block_and_admit", "modified_rule_keeps_statistics", "modified_breaker_rule_compared_over_whole_history"},
 		Level:   "exploration",
 		Rule: "case = (kind of the unchanged rule R: flow throttling / warm-up / reject with a private window, circuit breaker, hotspot QPS, hotspot concurrency; 0-2 never-blocking rules of the same module on the same resource; 20-80 traffic ops (requests with arguments, holds, completions with errors, ticks) with 1-4 reloads inserted, each a compound of 1-3 edits: each keeps R field-for-field identical (fresh object) and adds / removes / modifies (also with unchanged statistic parameters) / reorders the others, or duplicates R where that is behaviour-neutral; whole-set and per-resource paths). " +
 			"Run A executes the history without the reloads, run B with them, after a full reset of process-global state; the decision traces (admit / block type / requested wait) on R's resource must be identical. A second oracle modifies R itself keeping its statistic parameters (private-window flow rule: threshold change) and requires the decisions to equal a model whose window keeps the pre-reload counts. " +
@@ -149,8 +149,11 @@ func flowOther(cfg *Cfg, p int, i int) *flow.Rule {
 	return r
 }
 
-func cbR(cfg *Cfg) *cb.Rule {
-	return &cb.Rule{Id: "R", Resource: res, Strategy: cb.ErrorCount, RetryTimeoutMs: uint32(cfg.P2 * 700), MinRequestAmount: 1, StatIntervalMs: 5000, StatSlidingWindowBucketCount: 1, Threshold: float64(cfg.P1), ProbeNum: uint64(cfg.P2 % 2)}
+func cbR(cfg *Cfg, retry int) *cb.Rule {
+	if retry == 0 {
+		retry = cfg.P2 * 700
+	}
+	return &cb.Rule{Id: "R", Resource: res, Strategy: cb.ErrorCount, RetryTimeoutMs: uint32(retry), MinRequestAmount: 1, StatIntervalMs: 5000, StatSlidingWindowBucketCount: 1, Threshold: float64(cfg.P1), ProbeNum: uint64(cfg.P2 % 2)}
 }
 
 func cbOther(cfg *Cfg, p int, i int) *cb.Rule {
@@ -181,10 +184,12 @@ type lst struct {
 	// rSpec: behaviour-neutral modification of R itself (hotspot kinds): a specific item for a value no request
 	// ever carries. R keeps its statistic parameters, so it must keep its counters, so the trace must not change.
 	rSpec bool
+	// rRetry: modification of R itself (breaker kind): another retry timeout. Statistic parameters unchanged.
+	rRetry int
 }
 
 func (l *lst) clone() *lst {
-	return &lst{append([]int{}, l.others...), l.rpos, l.dup, l.rDelta, l.rSpec}
+	return &lst{append([]int{}, l.others...), l.rpos, l.dup, l.rDelta, l.rSpec, l.rRetry}
 }
 
 func load(o *harness.Outcome, step int, cfg *Cfg, l *lst, perRes bool) {
@@ -217,15 +222,15 @@ func load(o *harness.Outcome, step int, cfg *Cfg, l *lst, perRes bool) {
 			var rules []*cb.Rule
 			for i, p := range l.others {
 				if i == l.rpos {
-					rules = append(rules, cbR(cfg))
+					rules = append(rules, cbR(cfg, l.rRetry))
 				}
 				rules = append(rules, cbOther(cfg, p, i))
 			}
 			if l.rpos >= len(l.others) {
-				rules = append(rules, cbR(cfg))
+				rules = append(rules, cbR(cfg, l.rRetry))
 			}
 			if l.dup {
-				rules = append(rules, cbR(cfg))
+				rules = append(rules, cbR(cfg, l.rRetry))
 			}
 			if perRes {
 				_, _ = cb.LoadRulesOfResource(res, rules)
@@ -298,6 +303,10 @@ func applyEdit(cfg *Cfg, o *harness.Outcome, n *lst, en, em uint64, step int, mo
 			n.rSpec = !n.rSpec
 			o.Probe("rule_modified_neutrally_keeps_counters")
 		}
+		if cfg.Kind == kBreaker && !n.dup && n.rRetry == 0 {
+			n.rRetry = cfg.P2*700 + 350*(int(em)+1)
+			modSteps[step] = n.rRetry
+		}
 		if cfg.Kind == kStandalone && !n.dup {
 			n.rDelta = int(em) - 3
 			if cfg.P1+n.rDelta < 0 {
@@ -316,12 +325,18 @@ type tr struct {
 }
 
 // run executes the history; withReloads selects run B. modifyR: the reload op with N==6 modifies R itself (standalone kind).
-func run(c *harness.Case, cfg *Cfg, o *harness.Outcome, withReloads bool) (trace []tr, firstReload int, modSteps map[int]int) {
+func run(c *harness.Case, cfg *Cfg, o *harness.Outcome, withReloads bool, preRetry int) (trace []tr, firstReload int, modSteps map[int]int, opened []int) {
 	env := harness.Reset(cfg.Origin*1e6, harness.DefaultGeometry())
 	clk := env.Clock
 	var lastSleep time.Duration
 	clk.OnSleep = func(d time.Duration) { lastSleep += d }
-	l := &lst{others: append([]int{}, cfg.Others...), rpos: cfg.RPos, dup: cfg.RDup}
+	l := &lst{others: append([]int{}, cfg.Others...), rpos: cfg.RPos, dup: cfg.RDup, rRetry: preRetry}
+	curStep := 0
+	if cfg.Kind == kBreaker {
+		cb.ClearStateChangeListeners()
+		cb.RegisterStateChangeListeners(&openRec{func() { opened = append(opened, curStep) }})
+		defer cb.ClearStateChangeListeners()
+	}
 	if cfg.RDup {
 		o.Probe("unchanged_rule_listed_twice")
 	}
@@ -336,6 +351,7 @@ func run(c *harness.Case, cfg *Cfg, o *harness.Outcome, withReloads bool) (trace
 		if o.Failed() {
 			return
 		}
+		curStep = step
 		switch op.K {
 		case "tick":
 			clk.AdvanceMs(op.N)
@@ -435,16 +451,39 @@ func (P) Exec(c *harness.Case) *harness.Outcome {
 		return o
 	}
 	// does the history modify R itself? then the A/B comparison only covers the prefix before that reload
-	a, _, _ := run(c, &cfg, harness.NewOutcome(), false)
-	b, first, mods := run(c, &cfg, o, true)
+	b, first, mods, _ := run(c, &cfg, o, true, 0)
 	if o.Failed() {
 		return o
 	}
 	cut := len(c.Callers[0])
 	for s := range mods {
-		if s < cut {
+		if s >= 0 && s < cut {
 			cut = s
 		}
+	}
+	var a []tr
+	if cfg.Kind == kBreaker && len(mods) > 0 {
+		// R itself got another retry timeout at step `cut`, its statistic parameters unchanged, so it keeps the
+		// errors counted so far. Reference: no reloads, R with that retry timeout from the start. As long as R's
+		// breaker never opened before the modification the retry timeout has had no influence, so the two
+		// traces must agree over the whole history (an open breaker is replaced by a closed one: then the
+		// comparison ends at the modification as before).
+		var opened []int
+		a, _, _, opened = run(c, &cfg, harness.NewOutcome(), false, mods[cut])
+		early := false
+		for _, s := range opened {
+			if s <= cut {
+				early = true
+			}
+		}
+		if early {
+			a, _, _, _ = run(c, &cfg, harness.NewOutcome(), false, 0)
+		} else {
+			cut = len(c.Callers[0])
+			o.Probe("modified_breaker_rule_compared_over_whole_history")
+		}
+	} else {
+		a, _, _, _ = run(c, &cfg, harness.NewOutcome(), false, 0)
 	}
 	sawAdmit, sawBlock := false, false
 	for i := 0; i < len(a) && i < len(b); i++ {
@@ -526,5 +565,15 @@ func checkKeptStatistics(c *harness.Case, cfg *Cfg, o *harness.Outcome, b []tr, 
 		}
 	}
 }
+
+type openRec struct{ f func() }
+
+func (r *openRec) OnTransformToClosed(prev cb.State, rule cb.Rule) {}
+func (r *openRec) OnTransformToOpen(prev cb.State, rule cb.Rule, snapshot interface{}) {
+	if rule.Id == "R" {
+		r.f()
+	}
+}
+func (r *openRec) OnTransformToHalfOpen(prev cb.State, rule cb.Rule) {}
 
 var _ = sim.OpUser
